@@ -93,6 +93,15 @@ CLAIMED = {
             'Trusts the stub HTTP session (it performs the real write_request), FakeConnection, stdlib http.cookiejar (run untraced); pools are '
             'finite; chains <=2 hops (thorough 3).',
             'DESIGN.md 3/C16', 'pool indices enumerated by the solver; free hole <=2-3 characters'),
+    'C08': ('other',
+            'Bounded symbolic verification of the real Stream.read_response/read_body, ChunkedTransferReader, framing choice and keep-alive '
+            'decision against an independent RFC 7230 reference: body bytes, read cuts (segmentation of body reads down to single bytes), '
+            'the truncation point (every position of the stream), lengths and status codes are symbolic; chunk-size spellings, extensions, '
+            'trailers, LF-only line ends and connection headers are enumerated partitions; two lock-step exchanges on a persistent '
+            'connection; content codings over the zlib model.',
+            'Trusts harness/fakeconn.py (line reads are not segmented: asyncio StreamReader), the RFC reference written in the harness, the zlib '
+            'model; bounds: body <=3 bytes (thorough 6), <=2 chunks, <=2 cuts (4); TE spellings other than "chunked" outside; known finding D11.',
+            'DESIGN.md 3/C08', 'body bytes, cuts, truncation point, lengths, status code symbolic'),
 }
 
 NOT_APPLICABLE = {
@@ -102,7 +111,7 @@ NOT_APPLICABLE = {
 }
 
 PENDING = {k: 'claimed in DESIGN.md 3 but its check is not built yet at this commit' for k in
-           'C04 C05 C07 C08 C09 C10 C15 C20'.split()}
+           'C04 C05 C07 C09 C10 C15 C20'.split()}
 
 
 def main():
